@@ -216,6 +216,15 @@ func c18Run(c *fw.Ctx) {
 	protos := []string{"", "http", "https", "http, https", "https, http", "HTTPS"}
 	future, past := harness.At(time.Hour), harness.At(-time.Minute)
 
+	// build every configuration up front, in a fixed order: a defect that lets one upstream's settings leak
+	// into process-wide state then shows (and replays) independently of which case runs first
+	for _, sc := range []bool{false, true} {
+		for _, ov := range []bool{false, true} {
+			for _, dm := range []bool{false, true} {
+				getEnv(sc, ov, dm)
+			}
+		}
+	}
 	mon.source = "dedicated-product"
 	if c.Replay != nil && strings.HasPrefix(c.Replay.Scenario, "re-driven/") {
 		// a violation seen while another harness was re-driven is re-executed by re-driving that harness
@@ -237,6 +246,7 @@ func c18Run(c *fw.Ctx) {
 		e := ce.e
 		out := outcomes[x.Choose("outcome", len(outcomes))]
 		proto := protos[x.Choose("x-forwarded-proto", len(protos))]
+		xfh := x.Choose("x-forwarded-host", 2) == 1
 		hs := hostile[0]
 		if out == "proxied-200" || out == "upstream-500" || out == "skip-auth-proxied" {
 			hs = hostile[x.Choose("upstream-headers", len(hostile))]
@@ -334,6 +344,9 @@ func c18Run(c *fw.Ctx) {
 		if proto != "" {
 			hdr.Set("X-Forwarded-Proto", proto)
 		}
+		if xfh {
+			hdr.Set("X-Forwarded-Host", "login.evil.test") // client-chosen; must not steer redirects or cookies
+		}
 		resp := e.Do(harness.NewRequest(method, target, host, hdr, nil))
 		if out == "backend-stalled" {
 			// let the stalled backend finish (the proxy has already answered, or was upgraded to https)
@@ -411,7 +424,7 @@ func init() {
 		ID:    "C18",
 		Level: "exploration",
 		Rule: "a response monitor is the only oracle. (a) dedicated product on the real proxy: outcome {proxied 200, upstream 500, backend down -> 502, backend stalled -> timeout page (the backend blocks until the harness releases it), skip-auth proxied, sign-in 302, XHR 401, 403 page, token-revoked 401 page, 500 page, /oauth2/auth 202 and 401, callback with error / without code / successful (sets session, clears CSRF), sign-out, robots, certs, path-cleaning 301, favicon 404} " +
-			"x upstream response headers {none, X-Frame-Options, empty nosniff, X-XSS-Protection 0, duplicated, lower-case names, HSTS max-age=0, duplicated HSTS} x header_overrides {none, X-Frame-Options: DENY} x secure cookies {off, on} x X-Forwarded-Proto {none, http, https, 'http, https', 'https, http', HTTPS} x cookie domain {unset, set}; (a') each authenticator endpoint x {GET, POST, PUT} without parameters (405 and error pages); " +
+			"x upstream response headers {none, X-Frame-Options, empty nosniff, X-XSS-Protection 0, duplicated, lower-case names, HSTS max-age=0, duplicated HSTS} x header_overrides {none, X-Frame-Options: DENY} x secure cookies {off, on} x X-Forwarded-Proto {none, http, https, 'http, https', 'https, http', HTTPS} x cookie domain {unset, set} x X-Forwarded-Host {absent, foreign}; (a') each authenticator endpoint x {GET, POST, PUT} without parameters (405 and error pages); " +
 			"(b) every response produced while the quick alphabets of the C06, C13 (proxy) and C08, C09 (authenticator) harnesses are re-driven (thorough: also C01 and C07). " +
 			"Monitor: the three proxy headers exactly once with the proxy's or the override's value; with secure cookies exactly the proxy's HSTS and a 301 to https://<same host><same decoded path>?<same query> for plain HTTP; session/CSRF Set-Cookie with the configured Secure, HttpOnly, Path=/ and Domain = request host without port or the configured domain; the authenticator's six-header set on its sign-in, sign-out, OAuth and token endpoints; " +
 			"distinct_nontrivial = distinct (configuration, outcome, proto, upstream headers, status) of the dedicated product",
